@@ -1,5 +1,6 @@
 import AffVerif.Props.C03
 import AffVerif.Props.C05
+import AffVerif.Proofs.Effective
 /-!
 # C11 — pruning is fail-safe when the LP solver misbehaves
 
@@ -78,5 +79,37 @@ theorem C11_faults_keep_shape {σ : Type} (tol : α) (lp : LPOracle σ α) (f g 
     (hf : PT.Shaped 2 n m f) (hg : PT.Shaped 2 m p g) :
     PT.Shaped 2 n p (PT.composeP Schema.compose (isEdgeFeasible tol lp) n [] f g s c).1 :=
   C04_compose_prune _ f g s c 2 n m p [] hf hg
+
+/-- "completes without panicking", the `assert!` of `phase_one` ("nodes with the state FeasibleWitness should contain a
+    non-empty vector"): whatever the LP backend answers — `lp` is arbitrary here, so every fault plan is covered — no node
+    of the swept tree carries an empty witness list, provided none did before and `mirror_points` never answers `Some`
+    with no point (`MirrorNonempty`; proved for the model of the loop: `C05_mirror_points_sound`). The state handed to
+    `phase_one` is the state of a node of the tree, so the assertion holds at every call. -/
+theorem C11_faults_keep_witness_lists_nonempty {σ : Type} (tol : α) (lp : LPOracle σ α) (mirror : MirrorOracle σ α)
+    (hmn : MirrorNonempty mirror) (n m : Nat) (t : PT α) (s : σ) (ht : PT.Shaped 2 n m t)
+    (h : PT.StSound StWNE [] t) : PT.StSound StWNE [] (infeasibleElimination tol ⟨lp, mirror⟩ n t s).1 := by
+  have hok := PT.elimOK_of_shaped t n m ht
+  unfold infeasibleElimination
+  cases t with
+  | node i c ks =>
+    unfold PT.StSound at h
+    exact PT.stSound_elimNode StWNE stWNE_pred tol ⟨lp, mirror⟩ n
+      (fun s node pst path hyper hp => decideNode_wne tol ⟨lp, mirror⟩ hmn n s node pst path hyper hp)
+      true [] c.state (.node i c ks) s hok h.2 h.1
+
+/-- the other operations of a history keep that clause too: fresh trees, compositions (un-pruned and pruned, any schema,
+    any `explore` filter — i.e. any solver behaviour), maps on terminals, reduce, planted witnesses -/
+theorem C11_witness_lists_nonempty_steps {σ : Type} (S : Schema α) (ex : Explore σ α) (n : Nat) (f g : PT α) (s : σ)
+    (c : Nat) (φ : Aff α → Aff α) (idx : Nat) (pts : List (List α)) (h : PT.StSound StWNE [] f) :
+    PT.StSound StWNE [] (PT.composeS S f g c).1 ∧ PT.StSound StWNE [] (PT.composeP S ex n [] f g s c).1 ∧
+    PT.StSound StWNE [] (PT.mapTerminals φ f) ∧ PT.StSound StWNE [] (PT.reduce f) ∧
+    PT.StSound StWNE [] (PT.plant f idx pts) :=
+  have hind : ∀ p : List (Aff α), StWNE p (.indeterminate : NState α) := fun _ ws hw => by cases hw
+  ⟨PT.stSound_composeS StWNE hind S f g c [] h, PT.stSound_composeP StWNE hind S ex n [] f g s c h,
+   PT.stSound_mapTerminals StWNE φ f [] h, PT.stSound_reduceAux StWNE stWNE_pred true f [] h,
+   PT.stSound_plant StWNE stWNE_plant pts [] f idx h⟩
+
+theorem C11_witness_lists_nonempty_fresh (t : PT α) (hf : PT.Fresh t) : PT.StSound StWNE [] t :=
+  PT.stSound_of_fresh StWNE (fun _ ws hw => by cases hw) t [] hf
 
 end AV
